@@ -83,6 +83,12 @@ claims.update({
    'Not decided: deadlock- and leak-freedom and exactly-once delivery over all schedules (a model-checking question; these are the protocol\'s local obligations).',
    'DESIGN.md 3.C10'),
 })
+claims.update({
+ 'C11': ('other', 'lock-guard, wait-group pairing and hand-off ordering on all paths (background goroutine analysed in place), quit-gate path rule, sibling agreement over every TaskContainer implementation in the module, forwarding agreement of wrapper executors',
+   'Container and guarded flag only under pe.lock; every executeTasks preceded by one enterExecution and releasing the wait group once on every exit, Execute only inside RunSafe; a threshold Add removes the whole batch under the same lock hold that counted it in flight, hands it over and waits for confirmation; background loop: inflight-1 -> enterExecution -> confirm -> executeTasks(received batch); quits only after establishing under the lock that nothing is in flight (clearing guarded exactly then), Flush is its outermost defer; Wait = Flush then barrier-guarded waitGroup.Wait; every TaskContainer (5 in the module) returns what it accumulated and resets every AddTask-mutated field to a fresh non-aliasing value; bulk/chunk wrappers forward Add/Flush/Wait to the same-named operation.',
+   'Not decided: loss/duplication freedom of the producer/flusher protocol over all interleavings.',
+   'DESIGN.md 3.C11'),
+})
 not_built_reason = 'static rules designed (DESIGN.md section 3) but not built yet in this revision'
 
 checks, na = [], []
